@@ -38,6 +38,7 @@ def gen(rng, inject=None):
         d["urls"] = dict(rng.sample([("Homepage", "https://example.com/"), ("Bug Tracker", "https://example.com/issues?a=b,c"), ("Docs: main", "https://docs.example.com")], rng.choice([1, 2])))
     if rng.random() < 0.7:
         d["readme"] = rng.choice(["# Title\n\nBody text.\n", "Name: evil\nVersion: 9\n\nFrom me to you\nFrom: x\n", "line1\r\nline2\r\n", "Unicode ✓ ünï\n\n\ntrailing blank lines\n\n", ""])
+    d["readme_inline"] = d["readme"] is not None and rng.random() < 0.3
     if inject:
         # the twin without the line break is kept so that every other field can be compared with it
         d["_twin"] = {k: v for k, v in d.items()}
@@ -71,7 +72,9 @@ def pyproject(d, style):
                 L.append(f"{key} = [" + ", ".join("{" + ", ".join(([f"name = {toml_str(n)}"] if n else []) + ([f"email = {toml_str(e)}"] if e else [])) + "}" for n, e in people(d[key])) + "]")
         if d["license"]: L.append("license = {text = " + toml_str(d["license"]) + "}")
         if d["classifiers"]: L.append("classifiers = [" + ", ".join(toml_str(c) for c in d["classifiers"]) + "]")
-        if d["readme"] is not None: L.append('readme = "README.md"')
+        if d["readme"] is not None:
+            # PEP 621 allows the readme inline; the description must be that text wherever the project lives (D42)
+            L.append("readme = {text = " + toml_str(d["readme"]) + ', content-type = "text/markdown"}' if d.get("readme_inline") else 'readme = "README.md"')
         if d["python"] and not d["python"].startswith("^"): L.append(f"requires-python = {toml_str(d['python'])}")
         if d["extras"]:
             L.append("[project.optional-dependencies]")
@@ -212,7 +215,7 @@ def enc_meta(m):
     l = lambda xs: "\x1f".join(xs)
     return ["mrender", m.name, m.version, str(m.summary), o(m.license), o(m.keywords), o(m.author), o(m.author_email), o(m.maintainer),
             o(m.maintainer_email), o(m.requires_python), l(m.classifiers), l(sorted(m.provides_extra)), l(sorted(m.requires_dist)),
-            l(sorted(m.project_urls, key=lambda u: u[0])), o(m.description_content_type), ("S" + m.description) if m.description is not None else "N"]
+            l(sorted(m.project_urls, key=lambda u: u[0])), o(m.description_content_type), ("S" + str(m.description)) if m.description is not None else "N"]
 
 def run(tier):
     R = common.Run("C14", tier)
